@@ -19,6 +19,8 @@ import (
 //verif:stub crypto/sha256.Sum256 stubSum256
 //verif:stub (*encoding/base64.Encoding).EncodeToString stubB64Encode
 //verif:stub crypto/tls.Listen stubTLSListen
+//verif:stub github.com/magisterquis/curlrevshell/lib/sstls.GenerateSelfSignedCertificate stubGenerateC05
+//verif:stub github.com/magisterquis/curlrevshell/lib/sstls.SaveCertificate stubSaveC05
 
 var (
 	getCertFails bool
@@ -42,10 +44,21 @@ func stubGetCertificate(subject string, dnsNames []string, ips []net.IP, lifespa
 	}
 	c := tls.Certificate{Certificate: [][]byte{{'C', keyID}}}
 	if !leafMissing {
-		c.Leaf = &x509.Certificate{PublicKey: keyTag{keyID}, Raw: []byte{'R', keyID ^ 0x55}}
+		// validity dates are arbitrary: the cached certificate may be long expired or not yet valid
+		c.Leaf = &x509.Certificate{PublicKey: keyTag{keyID}, Raw: []byte{'R', keyID ^ 0x55}, NotBefore: verifTime(nondetInt64()), NotAfter: verifTime(nondetInt64())}
 	}
 	return c, nil
 }
+// any certificate generated during this run has a different key than the cached one
+func stubGenerateC05(subject string, dnsNames []string, ips []net.IP, lifespan time.Duration) ([]byte, []byte, tls.Certificate, error) {
+	genC05++
+	id := keyID ^ 0x01
+	return []byte("c"), []byte("k"), tls.Certificate{Certificate: [][]byte{{'C', id}}, Leaf: &x509.Certificate{PublicKey: keyTag{id}}}, nil
+}
+func stubSaveC05(certFile string, certPEM, keyPEM []byte) error { return nil }
+
+var genC05 int
+
 func stubMarshalPKIX(pub any) ([]byte, error) {
 	if marshalFails {
 		return nil, errC05
@@ -93,16 +106,21 @@ func HarnessC05Listen() {
 		verifReach("C05.listen.failed")
 		return
 	}
-	verifAssert(err == nil && getCertCalls == 1 && listenCalls == 1, "C05.listen.ok")
-	want := "B" + string([]byte{'H', 'P', keyID, 0})
-	if verifCanary() {
-		want = "B" + string([]byte{'H', 'R', keyID ^ 0x55, 0})
-	}
-	verifAssert(l.Fingerprint == want, "C05.fingerprint-is-hash-of-served-public-key")
+	verifAssert(err == nil && listenCalls == 1, "C05.listen.ok")
+	// the key the listener will actually present: the one certificate in the configuration
 	cfg := listenConfig
 	okCfg := cfg != nil && len(cfg.Certificates) == 1 && len(cfg.Certificates[0].Certificate) == 1 &&
-		cfg.Certificates[0].Certificate[0][0] == 'C' && cfg.Certificates[0].Certificate[0][1] == keyID &&
+		len(cfg.Certificates[0].Certificate[0]) == 2 && cfg.Certificates[0].Certificate[0][0] == 'C' &&
 		cfg.GetCertificate == nil && cfg.GetConfigForClient == nil && len(cfg.NameToCertificate) == 0
-	verifAssert(okCfg, "C05.only-that-certificate-is-served")
+	verifAssert(okCfg, "C05.only-one-certificate-is-served")
+	if !okCfg {
+		return
+	}
+	served := cfg.Certificates[0].Certificate[0][1]
+	want := "B" + string([]byte{'H', 'P', served, 0})
+	if verifCanary() {
+		want = "B" + string([]byte{'H', 'R', served ^ 0x55, 0})
+	}
+	verifAssert(l.Fingerprint == want, "C05.fingerprint-is-hash-of-served-public-key")
 	verifReach("C05.listen.ok")
 }
